@@ -63,7 +63,7 @@ macro "hs_eval" : tactic =>
   `(tactic| simp [handshakeLoop, sends, SpecServer.feed, SpecServer.step, splitCmd, splitWs, splitWsAux, isSpace,
       SpecServer.findMech, SpecServer.Mech.all, SpecServer.Mech.name, SpecServer.rejected, joinWith,
       SpecServer.mechStart, SpecServer.mechData, SpecServer.okLine, SpecServer.lERROR,
-      processLines, handleAuthMessage, authREJECTED, authTryNextMethod, authOK, authAGREE, authDATA, authERROR,
+      lineReceived, processLines, handleAuthMessage, authREJECTED, authTryNextMethod, authOK, authAGREE, authDATA, authERROR,
       cREJECTED, cOK, cAGREE, cDATA, cERROR, lBEGIN, lNEGOTIATE, lDATA, lCANCEL,
       maxAuth, Gen.ClientAuth.maxAuthLength, CRLF,
       mEXTERNAL, mCOOKIE, mANONYMOUS, authLine, splitWsAux_hexlify, strip_hexlify,
@@ -118,7 +118,7 @@ macro "hs_eval_folded" : tactic =>
   `(tactic| simp [handshakeLoop, sends, SpecServer.feed, SpecServer.step, splitCmd, splitWs, splitWsAux, isSpace,
       SpecServer.findMech, SpecServer.Mech.all, SpecServer.Mech.name, SpecServer.rejected, joinWith,
       SpecServer.mechStart, SpecServer.okLine, SpecServer.lERROR,
-      processLines, handleAuthMessage, authREJECTED, authTryNextMethod, authOK, authAGREE, authDATA, authERROR,
+      lineReceived, processLines, handleAuthMessage, authREJECTED, authTryNextMethod, authOK, authAGREE, authDATA, authERROR,
       cREJECTED, cOK, cAGREE, cDATA, cERROR, lBEGIN, lNEGOTIATE, lDATA, lCANCEL,
       maxAuth, Gen.ClientAuth.maxAuthLength, CRLF,
       mEXTERNAL, mCOOKIE, mANONYMOUS, authLine, splitWsAux_hexlify, strip_hexlify,
